@@ -8,7 +8,7 @@ Function contracts on the real functions, run unmodified on symbolic integers:
    and inductive step of the fold), Const.__init__ with shape=None
  tier B (all values, widths <= Wb, exact bit-vector encoding -- labelled bounded, not unbounded)
    utils.exact_log2, Const.__init__ normalisation, Const.cast of Cat/Slice of constants,
-   _get_init_value (Shape and range shapes), MemoryData.Init.__setitem__
+   _get_init_value (Shape and range shapes; int and constant-expression inits), MemoryData.Init.__setitem__
 """
 import types
 import z3
@@ -390,6 +390,21 @@ def unit_init_value(Wb):
                 r = A._get_init_value(v, A.Shape(w, s))
             path.prove(f"_get_init_value[{w},{s}]::wrapped", to_sint(r) == to_sint(norm(v, w, s)))
         parts.append(Exploration(f"_get_init_value[{w},{s}]", body).run())
+    # the initial value given as a constant EXPRESSION (a Const of another shape, a Cat of one): first the expression's own
+    # value, then wrapped to the target shape -- in particular an unsigned constant re-read as signed
+    for (w, s) in [(1, True), (4, False), (4, True)]:
+        for (vw, vs) in [(1, False), (4, False), (4, True), (6, False)]:
+            for how in ("const", "cat"):
+                def body(path, w=w, s=s, vw=vw, vs=vs, how=how):
+                    v = path.var("init", -(1 << (vw + 2)), (1 << (vw + 2)))
+                    with shimmed(U, A):
+                        c = A.Const(v, A.Shape(vw, vs))
+                        if how == "cat":
+                            c = A.Cat(c)
+                        r = A._get_init_value(c, A.Shape(w, s))
+                    inner = norm(v, vw, vs if how == "const" else False)
+                    path.prove(f"_get_init_value[{w},{s}]::{how}({vw},{vs})::wrapped", to_sint(r) == to_sint(norm(inner, w, s)))
+                parts.append(Exploration(f"_get_init_value[{w},{s}]::{how}({vw},{vs})", body).run())
     for rg in RANGES:
         def body(path, rg=rg):
             sh = A.Shape.cast(rg)
